@@ -55,7 +55,7 @@ theorem C07_emitted_counter_unique (E D : Spec.Rfc4493.BlockFn) (cfg : Config) (
     (hx : x.1 ∉ (run E D cfg (Sys.init db) evs).resetsDn) :
     (run E D cfg (Sys.init db) evs).emittedDn.count x ≤ 1 ∧
     (x ∈ (run E D cfg (Sys.init db) evs).emittedDn → x ∈ (run E D cfg (Sys.init db) evs).issuedDn) := by
-  obtain ⟨h1, h2⟩ := (kinv_run E D cfg _ evs (kinv_init db)).dn x hx
+  obtain ⟨h1, h2⟩ := (kinv_run E D cfg _ evs (kinv_init cfg db)).dn x hx
   simp only [Book.circ, dnBook] at h1 h2
   refine ⟨by omega, fun hm => h2 ?_⟩
   have : 0 < (run E D cfg (Sys.init db) evs).emittedDn.count x := List.count_pos_iff.mpr hm
